@@ -617,7 +617,8 @@ def process_c08(in_path, out_path, sidecar, mg=None):
                 ev["c"] = cur["cls"]
                 ev["s"] = side["s"]
                 ev["obs"] = obs
-                if ev["which"] == "a":
+                # pos 1 / 2 within a group (fresh objects | one reused object)
+                if ev.get("pos", 1 if ev["which"] == "a" else 2) == 1:
                     first = lo
                     ev["pairOK"] = 1
                 else:
